@@ -11,29 +11,50 @@ Sub-checks
   drange_1b  generated configuration + up to 25 (t, u) pairs, t <= u: Calendar.drange(t, u, '1b')
   all_days   generated configuration, EVERY day between the first and last business day of the range x EVERY n in
              [-40, 40] whose walk stays inside the range (90-200 day ranges in the quick tier, 1-2.2 years in thorough)
+  session    2-3 calendars over one range and under one key (other weekend / a few other holidays / other adj / equal / a copy), built at
+             different moments of one history of questions about the same few date objects; argument lists shared between constructors;
+             every answer judged by the model of the calendar that was asked (state carried between calls, appendix classes 11, 12, 14)
   registry   state machine on calendar(key, ...): register / re-register / fetch / populate, compared with the
              last registration after every step
+
+Every date goes into the library through _tval / _hval (raw type of the value: datetime, pd.Timestamp, datetime.date, with a time of day);
+the model only ever sees the ordinal of the day.
 """
 import datetime
+import os
 
 from hypothesis import strategies as st
 
-from pv.core import Sub, MachineSub, HarnessError, call, check
+from pv.core import Sub, MachineSub, HarnessError, call, call_fuel, check
 
 ASSUMPTIONS = [
-    'holidays are datetime.datetime at midnight (the form of the class docstring, `.do(dt, "date")`), passed as a list, a tuple, dict keys, a bare '
-    'datetime (one holiday) or None (no holiday) - every container as_list() unpacks; they may be unsorted, hold duplicates, weekend days and days '
+    'holidays are datetime.datetime or pd.Timestamp at midnight, also both kinds in one list (the form of the class docstring, `.do(dt, "date")`), passed as a list, a tuple, '
+    'dict keys, a bare datetime (one holiday) or None (no holiday) - every container as_list() unpacks; they may be unsorted, hold duplicates, weekend days and days '
     'outside [t0, t1]. A dict or a set of holidays raises TypeError in the constructor (its docstring asks for a list): not generated',
-    't, t0, t1 are datetime.datetime at midnight ("every day t"): dates with a time of day or datetime.date objects are not generated',
+    'holidays given as datetime.date or numpy.datetime64 are silently ignored by the library (Calendar.__init__ keeps the entries as dict keys and is_bday looks '
+    'ymd(date), a datetime, up): reported as a defect against "for any holiday set", generated only with PV_C05_INCLUDE_DATE_HOLIDAYS=1. Strings, ints and datetimes '
+    'with a time of day are ignored in the same way; they are not generated at all (the docstring example converts its strings with dt first)',
+    't ("every day t") is passed as datetime.datetime, pd.Timestamp or datetime.date at midnight, and - a fifth of the points - as datetime / Timestamp with a time of day '
+    '(00:00:00.000001, 06:30, 12:00, 23:59:59.999999): every law is then about the DAY of t, answers must be datetimes at midnight, and the inverse law demands '
+    'add(add(t, n), -n) == the day of t. numpy.datetime64 is not generated for t (is_bday, and adjust under "m", raise AttributeError on it; the docstrings ask for a datetime)',
+    'n is a python int or the same number as numpy.int64; dt_bump gets "nb", "nB", and "+nb" for n > 0 ("+0b" / "-0b" have a meaning of their own in the code - adjust '
+    'forward / backward first - that the statement does not mention: not generated)',
+    't0, t1 are passed as datetime.datetime, datetime.date or pd.Timestamp at midnight. A t0 with a time of day makes the lookup tables start at that time, so that every add(|n|>1) / '
+    'bdays / drange raises KeyError: reported, generated only with PV_C05_INCLUDE_RANGE_TOD=1 (the quantifier does not list the range among the configuration choices)',
     'add/bdays/inverse/2-step laws are demanded only where the whole reference walk (start adjust(t), |n| business days, and the walk back) '
     'stays between the first and the last business day of [t0, t1] (these two days included: n is clipped so that the walk just fits); outside it '
     'the statement defines no value',
     'is_bday/is_holiday/adjust are demanded for every day between the first and the last business day of the range (all_days) so that '
     'adjust never has to leave the range',
-    'drange(t, u, "1b") is demanded for t <= u only (for t > u the statement does not say whether the answer is empty or descending)',
+    'drange(t, u, "1b") is demanded for t <= u only (for t > u the statement does not say whether the answer is empty or descending); the endpoints come in the raw types of t, '
+    'with times of day such that t <= u holds for the instants as well (12:00 to 00:00 two days later, 23:59 to 06:30 of the next day, one object for both)',
     'the explicit adj= argument of add/bdays/dt_bump is treated as a second spelling of the configuration adj; dt_bump(t, "nb") is only a route into add; '
     'adj is spelt f/F/following, p/P/previous, m/M/modified/"modified following"/MF (what the constructor docstring and adjust() accept); '
-    'adjust([t1, t2, ..], adj) and adjust({k: t}, adj) are treated as the same function applied date by date',
+    'adjust([t1, t2, ..], adj) and adjust({k: t}, adj) are treated as the same function applied date by date (0, 1 or up to 40 dates; a tuple may come back as tuple or list; '
+    'the same container object is passed to two calls and both are judged by what the caller put into it). add(<timeseries>, n) re-indexes and aggregates VALUES, which the '
+    'statement (about a day t) does not describe: not checked',
+    'session: Calendar(cal) is taken to be a calendar of the same configuration as cal; calendars of one session share key and range on purpose and are built directly '
+    '(Calendar(key, ...)), not through the registry - what calendar(key) returns is the business of the registry sub-check',
     'drange is called with the bump "1b" exactly as in the statement (with "1B" Calendar.drange falls through to the plain weekday drange and ignores '
     'the holidays - reported as an observation, not checked)',
     'registry: the table path (add(+4), bdays) is compared only for registrations that passed a small explicit t0/t1 (the default 1900-2300 table costs seconds to build); registrations without t0/t1 are compared on is_bday/is_holiday/adjust/add(+-1); a re-registration that '
@@ -55,6 +76,110 @@ def _letter(a):
     return a[0].lower()
 BASE = datetime.date(1996, 1, 1).toordinal()
 NMAX = 40
+
+# input classes that are generated only on request (the library does not handle them today; see ASSUMPTIONS and the report)
+INCLUDE_DATE_HOLIDAYS = os.environ.get('PV_C05_INCLUDE_DATE_HOLIDAYS', '') == '1'     # holidays given as datetime.date / numpy datetime64
+INCLUDE_RANGE_TOD = os.environ.get('PV_C05_INCLUDE_RANGE_TOD', '') == '1'             # calendar range starting at a time of day (t0 = day 12:00)
+
+# times of day (h, m, s, microsecond) in increasing order: one microsecond after midnight, the morning, noon, the last microsecond of the day
+TODS = [[0, 0, 0, 1], [6, 30, 0, 0], [12, 0, 0, 0], [23, 59, 59, 999999]]
+T_FORMS = ['dt', 'ts', 'date', 'tod', 'ts_tod']
+
+
+def _tval(o, form='dt', tod=2):
+    """the day with ordinal o in one of the raw types a caller may hold it in (midnight unless the form carries a time of day)"""
+    if form == 'dt' or form is None:
+        return datetime.datetime.fromordinal(o)
+    if form == 'date':
+        return datetime.date.fromordinal(o)
+    h, m, s_, us = TODS[tod]
+    if form == 'tod':
+        return datetime.datetime.fromordinal(o).replace(hour=h, minute=m, second=s_, microsecond=us)
+    import pandas as pd
+    if form == 'ts':
+        return pd.Timestamp(datetime.datetime.fromordinal(o))
+    if form == 'ts_tod':
+        return pd.Timestamp(datetime.datetime.fromordinal(o).replace(hour=h, minute=m, second=s_, microsecond=us))
+    raise HarnessError('bad date form %r' % (form,))
+
+
+def _choices(**lists):
+    """one integer draw that stands for an independent, uniform choice from each of the lists (five draws per point would eat hypothesis' entropy budget for the case)"""
+    names = sorted(lists)
+    total = 1
+    for k in names:
+        total *= len(lists[k])
+
+    def decode(i):
+        res = {}
+        for k in names:
+            res[k] = lists[k][i % len(lists[k])]
+            i //= len(lists[k])
+        return res
+    return st.integers(0, total - 1).map(decode)
+
+
+def _tform_txt(form, tod=2):
+    if form in (None, 'dt'):
+        return ''
+    return {'ts': ' as pd.Timestamp', 'date': ' as datetime.date', 'tod': ' at %02i:%02i:%02i.%06i' % tuple(TODS[tod]),
+            'ts_tod': ' as pd.Timestamp at %02i:%02i:%02i.%06i' % tuple(TODS[tod])}[form]
+
+
+def _hval(o, j, htype):
+    """the j-th entry of the holiday list, for the day with ordinal o"""
+    if htype == 'dt' or htype is None:
+        return datetime.datetime.fromordinal(o)
+    if htype == 'ts' or (htype == 'mixed' and j % 2 == 1):
+        import pandas as pd
+        return pd.Timestamp(datetime.datetime.fromordinal(o))
+    if htype == 'mixed':
+        return datetime.datetime.fromordinal(o)
+    if htype in ('date', 'np64', 'mixed_date'):          # INCLUDE_DATE_HOLIDAYS only
+        k = {'date': 1, 'np64': 2, 'mixed_date': j % 3}[htype]
+        if k == 0:
+            return datetime.datetime.fromordinal(o)
+        if k == 1:
+            return datetime.date.fromordinal(o)
+        import numpy as np
+        return np.datetime64(datetime.date.fromordinal(o).isoformat(), 'D')
+    raise HarnessError('bad holiday type %r' % (htype,))
+
+
+# calendar boundary days (appendix class 19): as first / last day of the range and as start values t
+BKINDS = ['1jan', '31dec', '29feb', '28feb_nonleap', '30th', '31st']
+
+
+def _bkinds(o):
+    d = datetime.date.fromordinal(o)
+    k = []
+    if (d.month, d.day) == (1, 1):
+        k.append('1jan')
+    if (d.month, d.day) == (12, 31):
+        k.append('31dec')
+    if (d.month, d.day) == (2, 29):
+        k.append('29feb')
+    if (d.month, d.day) == (2, 28) and datetime.date.fromordinal(o + 1).month == 3:
+        k.append('28feb_nonleap')
+    if d.day == 30:
+        k.append('30th')
+    if d.day == 31:
+        k.append('31st')
+    return k
+
+
+_BK = {}
+
+
+def _days_of_kind(kind, lo, hi):
+    res = []
+    for o in range(lo, hi + 1):
+        k = _BK.get(o)
+        if k is None:
+            k = _BK[o] = _bkinds(o)
+        if kind in k:
+            res.append(o)
+    return res
 
 
 # ----------------------------------------------------------------------------- reference model (plain python)
@@ -149,10 +274,27 @@ def _ref(cfg):
     return Ref(cfg['t0'], cfg['t1'], cfg['weekend'], _expand(cfg))
 
 
-def _cal(cfg):
+def _hols_list(cfg):
+    htype = cfg.get('htype', 'dt')
+    return [_hval(o, j, htype) for j, o in enumerate(_expand(cfg))]
+
+
+def _range_args(cfg):
+    rform = cfg.get('rform', 'dt')
+    t0, t1 = _tval(cfg['t0'], rform), _tval(cfg['t1'], rform)
+    if cfg.get('t0_tod') is not None:                # INCLUDE_RANGE_TOD only
+        t0 = _tval(cfg['t0'], 'tod', cfg['t0_tod'])
+    return t0, t1
+
+
+def _cal(cfg, key=None, hols=None, weekend=None):
+    """builds the Calendar of a configuration; hols / weekend: ready-made argument objects to pass instead of fresh ones (session)"""
     from pyg_base import Calendar
-    hols = [_mk(o) for o in _expand(cfg)]
     hform = cfg.get('hform', 'list')
+    if hols is not None:
+        hform = 'list'
+    else:
+        hols = _hols_list(cfg)
     if hform == 'tuple':
         hols = tuple(hols)
     elif hform == 'keys':
@@ -161,7 +303,9 @@ def _cal(cfg):
         hols = None if len(hols) == 0 else hols[0] if len(hols) == 1 else hols
     wform = cfg.get('wform', 'list')
     w = list(cfg['weekend'])
-    if wform == 'tuple':
+    if weekend is not None:
+        pass
+    elif wform == 'tuple':
         weekend = tuple(w)
     elif wform == 'int':
         weekend = w[0]
@@ -177,9 +321,24 @@ def _cal(cfg):
     else:
         weekend = w
     adj = cfg.get('adj_spelling', cfg['adj'])
-    cal = call('Calendar(holidays as %s, weekend=%r, t0, t1, adj=%r)' % (hform, weekend, adj), Calendar,
-               None, hols, weekend, _mk(cfg['t0']), _mk(cfg['t1']), adj)
-    return cal
+    t0, t1 = _range_args(cfg)
+    if adj is None:          # adj left out: the documented default is 'm'
+        if cfg['adj'] != 'm':
+            raise HarnessError('adj can only be omitted for a modified-following configuration')
+        return call('Calendar(%r, holidays as %s of %s, weekend=%r, t0, t1 as %s) without adj' % (key, hform, cfg.get('htype', 'dt'), weekend, cfg.get('rform', 'dt')),
+                    Calendar, key, hols, weekend, t0, t1)
+    return call('Calendar(%r, holidays as %s of %s, weekend=%r, t0, t1 as %s, adj=%r)' % (key, hform, cfg.get('htype', 'dt'), weekend, cfg.get('rform', 'dt'), adj),
+                Calendar, key, hols, weekend, t0, t1, adj)
+
+
+FUEL = 2000000      # function calls granted to one add / dt_bump where a wrong start day would make the library's "skip the holidays" loop spin for ever
+
+
+def _call0(what, n, f, *args, **kwargs):
+    """add(t, 0) steps by 0 days "until it is on a business day": it never returns when adjust() handed it a non-business day, so n == 0 runs under the fuel guard"""
+    if n == 0:
+        return call_fuel(what, FUEL, f, *args, **kwargs)
+    return call(what, f, *args, **kwargs)
 
 
 def _is_dt(x, o):
@@ -220,12 +379,23 @@ def _month_ends(t0, t1):
 @st.composite
 def _cfg(draw, lo_days, hi_days, max_runs=4, min_runs=0, long_ranges=False):
     t0 = BASE + draw(st.integers(0, 3000))
+    # two in five ranges start on a calendar boundary day (1 Jan, 31 Dec, 29 Feb, 28 Feb of a non-leap year, a 30th, a 31st) ...
+    snap0 = draw(st.sampled_from([None] * 9 + BKINDS))
+    if snap0 is not None:
+        t0 = draw(st.sampled_from(_days_of_kind(snap0, BASE, BASE + 3000)))
     long_range = long_ranges and draw(st.integers(0, 9)) == 9      # a share of 7-10 year ranges (large lookup tables)
-    ndays = draw(st.integers(2400, 3650)) if long_range else draw(st.integers(lo_days, hi_days))
+    lo_, hi_ = (2400, 3650) if long_range else (lo_days, hi_days)
+    ndays = draw(st.integers(lo_, hi_))
+    # ... and two in five end on one (where the permitted lengths contain such a day)
+    snap1 = draw(st.sampled_from([None] * 9 + BKINDS))
+    if snap1 is not None:
+        cands = _days_of_kind(snap1, t0 + lo_, t0 + hi_)
+        if cands:
+            ndays = draw(st.sampled_from(cands)) - t0
     t1 = t0 + ndays
     weekend = draw(st.sampled_from(WEEKENDS))
     adj = draw(st.sampled_from(['m', 'f', 'p']))
-    adj_spelling = draw(st.sampled_from(ADJ_SPELL[adj]))
+    adj_spelling = draw(st.sampled_from(ADJ_SPELL[adj] + ([None, None] if adj == 'm' else [])))     # None: adj not passed at all (default 'm')
     pct = draw(st.sampled_from([0, 1, 10] if long_range else [0, 1, 10, 40, 50, 80]))
     k = draw(st.integers(0, ndays * pct // 80)) if pct else 0     # duplicates collapse: 80 -> ~63% of days at most
     wforms = ['list', 'tuple']
@@ -237,6 +407,11 @@ def _cfg(draw, lo_days, hi_days, max_runs=4, min_runs=0, long_ranges=False):
         wforms.extend(['dup', 'np', 'range'])
     wform = draw(st.sampled_from(wforms))
     hform = draw(st.sampled_from(['list', 'list', 'tuple', 'keys', 'auto']))
+    # raw type of the holiday entries: datetime, pd.Timestamp, or both in one list (a day listed twice may come once as each)
+    htype = draw(st.sampled_from(['dt'] * 7 + ['mixed', 'mixed', 'ts'] + (['date', 'np64', 'mixed_date'] if INCLUDE_DATE_HOLIDAYS else [])))
+    # raw type of the range arguments t0, t1
+    rform = draw(st.sampled_from(['dt'] * 8 + ['date', 'ts']))
+    t0_tod = draw(st.sampled_from([None, None, 2, 0])) if INCLUDE_RANGE_TOD else None
     hols = [t0 + i for i in draw(st.lists(st.integers(0, ndays), min_size=k, max_size=k))]
     ends = _month_ends(t0, t1)
     runs = []
@@ -264,7 +439,11 @@ def _cfg(draw, lo_days, hi_days, max_runs=4, min_runs=0, long_ranges=False):
         else:
             s = t0 + draw(st.integers(0, ndays))
         runs.append([s, l])
-    return dict(t0=t0, t1=t1, weekend=list(weekend), wform=wform, hform=hform, adj=adj, adj_spelling=adj_spelling, hols=hols, runs=runs)
+    cfg = dict(t0=t0, t1=t1, weekend=list(weekend), wform=wform, hform=hform, adj=adj, adj_spelling=adj_spelling, hols=hols, runs=runs,
+               htype=htype, rform=rform)
+    if t0_tod is not None:
+        cfg['t0_tod'] = t0_tod
+    return cfg
 
 
 def _interior(ref, margin):
@@ -301,16 +480,38 @@ def _day_case(draw, tier):
     B = ref.B
     edge = sorted(set(range(B[0], B[0] + 4)) | set(range(B[-1] - 3, B[-1] + 1)) | set([B[1], B[-2]]))
     ts.append(st.sampled_from(edge))
+    # calendar boundary days as START values: 1 Jan / 31 Dec / 29 Feb / 28 Feb of a non-leap year, and the 30th / 31st of any month
+    rare = sorted(set(o for k in ('1jan', '31dec', '29feb', '28feb_nonleap') for o in _days_of_kind(k, B[0], B[-1])))
+    if rare:
+        ts.append(st.sampled_from(rare))
+    common = sorted(set(o for k in ('30th', '31st') for o in _days_of_kind(k, B[0], B[-1])))
+    if common:
+        ts.append(st.sampled_from(common))
     t_s = st.one_of(*ts)
     n_s = st.one_of(st.integers(-NMAX, NMAX), st.integers(-3, 3), st.sampled_from([0, NMAX, -NMAX, 1, -1]))
     a_s = st.one_of(st.none(), st.none(), st.sampled_from(ADJ_SPELL['f'] + ADJ_SPELL['p'] + ADJ_SPELL['m']))
+    # how the point is spelt: raw type of t (datetime / pd.Timestamp / datetime.date / with a time of day), n as numpy integer, bump string '+nb' / 'nB'
+    o_s = _choices(tf=['dt'] * 8 + ['ts', 'date', 'tod', 'tod', 'ts_tod'], tod=list(range(len(TODS))), nf=['int'] * 7 + ['np'], bf=[''] * 6 + ['+', 'B'])
     npts = draw(st.integers(1, 40))
-    raw = draw(st.lists(st.tuples(t_s, n_s, a_s), min_size=npts, max_size=npts))
+    raw = draw(st.lists(st.tuples(t_s, n_s, a_s, o_s), min_size=npts, max_size=npts))
     pts = []
-    for t, n, a in raw:
+    for t, n, a, o in raw:
         i = ref.idx[ref.adj(t, _letter(a or cfg['adj']))]
-        pts.append([t, max(-i, min(len(B) - 1 - i, n)), a])     # no-op for interior points
-    return dict(cfg=cfg, pts=pts)
+        opts = {}
+        if o['tf'] != 'dt':
+            opts['tf'] = o['tf']
+            if o['tf'] in ('tod', 'ts_tod'):
+                opts['tod'] = o['tod']
+        if o['nf'] != 'int':
+            opts['nf'] = o['nf']
+        if o['bf']:
+            opts['bf'] = o['bf']
+        pts.append([t, max(-i, min(len(B) - 1 - i, n)), a, opts])     # the clipping is a no-op for interior points
+    # adjust(<container of dates>, adj): how many of the points go into it (0, 1, a few, all), list or tuple, and the two adj it is called with
+    # ONE AFTER THE OTHER ON THE SAME CONTAINER OBJECT
+    seq = dict(k=min(npts, draw(st.sampled_from([3, 3, 2, 0, 1, 1, 40, 40]))), form=draw(st.sampled_from(['list', 'list', 'tuple'])),
+               adjs=[draw(a_s), draw(st.sampled_from(['f', 'p', 'm', 'P', 'following']))])
+    return dict(cfg=cfg, pts=pts, seq=seq)
 
 
 def _cfg_classes(cfg, ref):
@@ -344,20 +545,44 @@ def _cfg_classes(cfg, ref):
         cls.append('range>=2000_days')
     cls.append('holidays_as=' + cfg.get('hform', 'list'))
     cls.append('weekend_as=' + cfg.get('wform', 'list'))
-    if cfg.get('adj_spelling', cfg['adj']) != cfg['adj']:
+    sp = cfg.get('adj_spelling', cfg['adj'])
+    if sp is None:
+        cls.append('adj_omitted')
+    elif sp != cfg['adj']:
         cls.append('adj_spelled_long_or_upper')
+    ht = cfg.get('htype', 'dt')
+    if ht != 'dt' and allh:
+        cls.append('holidays_raw=' + ht)
+        if ht == 'mixed' and len(allh) >= 2:
+            cls.append('holidays_datetime_and_timestamp_in_one_list')
+    if cfg.get('rform', 'dt') != 'dt':
+        cls.append('range_as=' + cfg['rform'])
+    if cfg.get('t0_tod') is not None:
+        cls.append('range_starts_at_a_time_of_day')
+    for k in _bkinds(cfg['t0']):
+        cls.append('range_starts_on_' + k)
+    for k in _bkinds(cfg['t1']):
+        cls.append('range_ends_on_' + k)
     return cls
 
 
 # ----------------------------------------------------------------------------- day_laws
 
-def _point_laws(cal, ref, cfg, t, n, a, flags):
-    """every law of the statement at one point. a = explicit adj override or None"""
+def _point_laws(cal, ref, cfg, t, n, a, flags, opts=None):
+    """every law of the statement at one point. a = explicit adj override or None; opts = how t and n are passed (raw types, spelling of the bump)"""
+    opts = opts or {}
     eff = _letter(a or cfg['adj'])
-    T = _mk(t)
+    tf, tod = opts.get('tf', 'dt'), opts.get('tod', 2)
+    T = _tval(t, tf, tod)              # the day t in the raw type of this point; every law below is about the DAY
+    N = n                              # n as it is passed: a python int or the same number as numpy.int64
+    if opts.get('nf') == 'np':
+        import numpy as np
+        N = np.int64(n)
     kw = {} if a is None else {'adj': a}
     nb = len(ref.B)
     tag = '[%s] ' % _cfg_txt(cfg)
+    if opts:
+        tag += '[t passed%s, n as %s] ' % (_tform_txt(tf, tod) or ' as datetime', type(N).__name__)
     isb = ref.isb(t)
 
     got = call('is_bday(%s)' % _d(t), cal.is_bday, T)
@@ -379,14 +604,14 @@ def _point_laws(cal, ref, cfg, t, n, a, flags):
     # add(t, n) = n-th business day from adjust(t)
     e = ref.add(t, n, eff)
     what = 'add(%s, %i%s)' % (_d(t), n, '' if a is None else ', adj=%r' % a)
-    r = call(what, cal.add, T, n, **kw)
+    r = _call0(what, n, cal.add, T, N, **kw)
     check(_is_dt(r, e), tag + '%s = %s; walking %s business days from adjust = %s gives %s', what, _show(r), n, _d(start), _d(e))
     # bdays(t, add(t, n)) == n
     b = call('bdays(%s, %s)' % (_d(t), _show(r)), cal.bdays, T, r, **kw)
     check(b == n, tag + 'bdays(%s, %s) = %s where the second date is %s; expected %s', _d(t), _show(r), b, what, n)
     # inverse for a business day t
     if isb:
-        back = call('add(%s, %i)' % (_show(r), -n), cal.add, r, -n, **kw)
+        back = _call0('add(%s, %i)' % (_show(r), -n), n, cal.add, r, -N, **kw)
         check(_is_dt(back, t), tag + 'add(add(t, %s), %s) = %s for the business day t = %s (add(t, %s) = %s)', n, -n, _show(back), _d(t), n, _show(r))
     # single-step path vs indexed path
     for s in (1, -1):
@@ -398,12 +623,30 @@ def _point_laws(cal, ref, cfg, t, n, a, flags):
         check(isinstance(direct, datetime.datetime) and direct == two, tag + 'add(%s, %s) = %s but add(add(t, %s), %s) = %s (adj %s)', _d(t), 2 * s, _show(direct), s, s, _show(two), eff)
     # second route into add
     bump = '%ib' % n
+    if opts.get('bf') == '+' and n > 0:
+        bump = '+' + bump              # the explicit sign ('+0b' is left out: the code gives it a meaning of its own, "adjust forward")
+        flags.add('pt_bump_spelled_with_plus')
+    elif opts.get('bf') == 'B':
+        bump = bump.upper()
+        flags.add('pt_bump_spelled_upper')
     if a is None:
-        r2 = call('dt_bump(%s, %r)' % (_d(t), bump), cal.dt_bump, T, bump)
+        r2 = _call0('dt_bump(%s, %r)' % (_d(t), bump), n, cal.dt_bump, T, bump)
     else:
-        r2 = call('dt_bump(%s, %r, %r)' % (_d(t), bump, a), cal.dt_bump, T, bump, a)
+        r2 = _call0('dt_bump(%s, %r, %r)' % (_d(t), bump, a), n, cal.dt_bump, T, bump, a)
     check(_is_dt(r2, e), tag + 'add reached through dt_bump(%s, %s, adj=%s) = %s; walking from adjust = %s gives %s', _d(t), bump, a, _show(r2), _d(start), _d(e))
 
+    if tf != 'dt':
+        flags.add('pt_t_as=' + {'ts': 'timestamp', 'date': 'date', 'tod': 'datetime_with_time_of_day', 'ts_tod': 'timestamp_with_time_of_day'}[tf])
+        if tf in ('tod', 'ts_tod') and not isb:
+            flags.add('pt_time_of_day_on_nonbday')
+    if opts.get('nf') == 'np':
+        flags.add('pt_n_as_numpy_int')
+        if abs(n) > 1:
+            flags.add('pt_n_as_numpy_int_table_path')
+    for k in _bkinds(t):
+        flags.add('pt_t_on_' + k)
+        if not isb:
+            flags.add('pt_nonbday_t_on_' + k)
     if not isb:
         flags.add('pt_nonbday')
         if t in ref.hol and _wd(t) not in ref.weekend:
@@ -440,25 +683,43 @@ def run_day_laws(spec):
     cfg = spec['cfg']
     ref = _ref(cfg)
     B = ref.B
-    for t, n, a in spec['pts']:
+    pts = [list(p) + [None] * (4 - len(p)) for p in spec['pts']]           # [t, n, adj override, options]; older replay files have three entries
+    for t, n, a, opts in pts:
         if len(B) < 4 or not (B[0] <= t <= B[-1] and abs(n) <= NMAX and 0 <= ref.idx[ref.adj(t, _letter(a or cfg['adj']))] + n < len(B)):
             raise HarnessError('day_laws spec has a point whose walk leaves the business days of the range')
     cal = _cal(cfg)
     flags = set()
     nt = 0
-    for t, n, a in spec['pts']:
-        nt += bool(_point_laws(cal, ref, cfg, t, n, a, flags))
-    # the vectorised spelling adjust([t1, t2, ..], adj) / adjust({k: t}, adj) is the same function applied to each date
-    ts = [p[0] for p in spec['pts'][:3]]
-    for a in (None, spec['pts'][0][2]):
+    for t, n, a, opts in pts:
+        nt += bool(_point_laws(cal, ref, cfg, t, n, a, flags, opts))
+    # the vectorised spelling adjust([t1, t2, ..], adj) / adjust({k: t}, adj) is the same function applied to each date.
+    # The container is built ONCE and handed to both calls: the second call is judged by what the caller put into it
+    seq = spec.get('seq') or dict(k=3, form='list', adjs=[None, pts[0][2]])
+    sel = pts[:seq['k']]
+    ts = [p[0] for p in sel]
+    objs = [_tval(p[0], (p[3] or {}).get('tf', 'dt'), (p[3] or {}).get('tod', 2)) for p in sel]
+    container = tuple(objs) if seq['form'] == 'tuple' else objs
+    mapping = dict(('k%i' % j, o) for j, o in enumerate(objs))
+    tag = '[' + _cfg_txt(cfg) + '] '
+    for j, a in enumerate(seq['adjs']):
         eff = _letter(a or cfg['adj'])
-        got = call('adjust(list of %i dates, %r)' % (len(ts), a), cal.adjust, [_mk(t) for t in ts], a)
-        check(isinstance(got, list) and len(got) == len(ts) and all(_is_dt(g, ref.adj(t, eff)) for g, t in zip(got, ts)),
-              '[' + _cfg_txt(cfg) + '] adjust(%s, %s) = %s; date by date the answer is %s', [_d(t) for t in ts], a, [_show(g) for g in got] if isinstance(got, list) else got,
-              [_d(ref.adj(t, eff)) for t in ts])
-        got = call('adjust(dict of %i dates, %r)' % (len(ts), a), cal.adjust, dict(('k%i' % j, _mk(t)) for j, t in enumerate(ts)), a)
-        check(isinstance(got, dict) and sorted(got) == ['k%i' % j for j in range(len(ts))] and all(_is_dt(got['k%i' % j], ref.adj(t, eff)) for j, t in enumerate(ts)),
-              '[' + _cfg_txt(cfg) + '] adjust(dict of %s, %s) = %s; date by date the answer is %s', [_d(t) for t in ts], a, got, [_d(ref.adj(t, eff)) for t in ts])
+        nth = ' (call %i on the same container object)' % (j + 1)
+        got = call('adjust(%s of %i dates, %r)%s' % (seq['form'], len(ts), a, nth), cal.adjust, container, a)
+        ok_type = isinstance(got, list) if seq['form'] == 'list' else isinstance(got, (list, tuple))
+        check(ok_type and len(got) == len(ts) and all(_is_dt(g, ref.adj(t, eff)) for g, t in zip(got, ts)),
+              tag + 'adjust(%s of %s, %s)%s = %s; date by date the answer is %s', seq['form'], [_d(t) for t in ts], a, nth,
+              [_show(g) for g in got] if isinstance(got, (list, tuple)) else got, [_d(ref.adj(t, eff)) for t in ts])
+        got = call('adjust(dict of %i dates, %r)%s' % (len(ts), a, nth), cal.adjust, mapping, a)
+        check(isinstance(got, dict) and sorted(got) == sorted('k%i' % j_ for j_ in range(len(ts))) and all(_is_dt(got['k%i' % j_], ref.adj(t, eff)) for j_, t in enumerate(ts)),
+              tag + 'adjust(dict of %s, %s)%s = %s; date by date the answer is %s', [_d(t) for t in ts], a, nth, got, [_d(ref.adj(t, eff)) for t in ts])
+    flags.add('adjust_seq_len=%s' % (len(ts) if len(ts) < 2 else '2-9' if len(ts) < 10 else '>=10'))
+    if seq['form'] == 'tuple':
+        flags.add('adjust_seq_tuple')
+    e0, e1 = [[ref.adj(t, _letter(a or cfg['adj'])) for t in ts] for a in seq['adjs'][:2]] if len(seq['adjs']) >= 2 else ([], [])
+    if e0 != e1:
+        flags.add('adjust_same_container_twice_other_answer')     # a callee that wrote its first answer into the caller's container would show here
+    if len(set(type(o) for o in objs)) > 1:
+        flags.add('adjust_seq_mixed_raw_types')
     return dict(nt=nt > 0, cls=_cfg_classes(cfg, ref) + sorted(flags))
 
 
@@ -476,16 +737,51 @@ def _drange_case(draw, tier):
     t_s = st.one_of(st.integers(lo, hi), st.sampled_from(special), st.sampled_from([lo, lo + 1, hi - 1, hi])) if special else st.one_of(st.integers(lo, hi), st.sampled_from([lo, hi]))
     span = st.one_of(st.integers(0, 12), st.integers(0, 90), st.integers(0, hi - lo), st.sampled_from([0, 0, hi - lo]))
     npairs = draw(st.integers(1, 25))
-    pairs = draw(st.lists(st.tuples(t_s, span).map(lambda p: [p[0], min(hi, p[0] + p[1])]), min_size=npairs, max_size=npairs))
+    # how the endpoints are passed: raw type (datetime / pd.Timestamp / datetime.date), with a time of day (12:00 to 00:00 two days later: not a whole number
+    # of days apart; 18:00 to 06:30 of the next day: less than one day apart), and - for t == u - ONE object passed for both
+    forms = ['dt'] * 8 + ['ts', 'date', 'tod', 'tod', 'ts_tod']
+    o_s = _choices(tf=forms, uf=forms, tt=list(range(len(TODS))), ut=list(range(len(TODS))), same=[False, False, True])
+    raw = draw(st.lists(st.tuples(t_s, span, o_s), min_size=npairs, max_size=npairs))
+    pairs = []
+    for t, sp, o in raw:
+        u = min(hi, t + sp)
+        opts = {}
+        if o['tf'] != 'dt':
+            opts['tf'] = o['tf']
+            if o['tf'] in ('tod', 'ts_tod'):
+                opts['tt'] = o['tt']
+        if t == u and o['same']:
+            opts['same'] = True                      # drange(T, T, '1b') with one object
+        elif t == u:
+            opts['uf'] = o['tf']                     # the same instant in a second object (t <= u must hold for the instants too)
+            if 'tt' in opts:
+                opts['ut'] = opts['tt']
+        elif o['uf'] != 'dt':
+            opts['uf'] = o['uf']
+            if o['uf'] in ('tod', 'ts_tod'):
+                opts['ut'] = o['ut']
+        pairs.append([t, u, opts])
     return dict(cfg=cfg, pairs=pairs)
 
 
-def _drange_law(cal, ref, cfg, t, u, flags):
+def _drange_law(cal, ref, cfg, t, u, flags, opts=None):
+    opts = opts or {}
     tag = '[%s] ' % _cfg_txt(cfg)
     a, b = ref.adj(t, cfg['adj']), ref.adj(u, cfg['adj'])
     exp = ref.between(a, b)
-    what = "drange(%s, %s, '1b')" % (_d(t), _d(u))
-    got = call(what, cal.drange, _mk(t), _mk(u), '1b')
+    tf, tt, uf, ut = opts.get('tf', 'dt'), opts.get('tt', 2), opts.get('uf', 'dt'), opts.get('ut', 2)
+    T = _tval(t, tf, tt)
+    if opts.get('same'):
+        if t != u:
+            raise HarnessError('one object for both endpoints needs t == u')
+        U, uf, ut = T, tf, tt
+    else:
+        U = _tval(u, uf, ut)
+    tods = [TODS[x] if f in ('tod', 'ts_tod') else [0, 0, 0, 0] for f, x in ((tf, tt), (uf, ut))]
+    if (t, tods[0]) > (u, tods[1]):
+        raise HarnessError('drange_1b endpoints must be in order as instants as well')
+    what = "drange(%s%s, %s%s, '1b')" % (_d(t), _tform_txt(tf, tt), _d(u), ' (the same object)' if opts.get('same') else _tform_txt(uf, ut))
+    got = call(what, cal.drange, T, U, '1b')
     check(isinstance(got, list) and all(isinstance(g, datetime.datetime) for g in got), tag + '%s returned %s', what, got)
     gos = [g.toordinal() if g == _mk(g.toordinal()) else g for g in got]
     if gos != exp:
@@ -495,6 +791,20 @@ def _drange_law(cal, ref, cfg, t, u, flags):
         check(False, tag + '%s has %s dates; the business days between the adjusted endpoints %s and %s are %s. missing %s extra %s increasing=%s',
               what, len(got), _d(a), _d(b), len(exp), missing, extra, inc)
     nonb = not ref.isb(t) or not ref.isb(u)
+    if tods[0] != [0, 0, 0, 0] or tods[1] != [0, 0, 0, 0]:
+        flags.add('endpoint_with_time_of_day')
+        if tods[0] != tods[1] and t < u:
+            flags.add('endpoints_not_whole_days_apart')
+            if nonb:
+                flags.add('endpoints_not_whole_days_apart_nonbday')
+        if u == t + 1 and tods[0] > tods[1]:
+            flags.add('endpoints_less_than_a_day_apart')
+    if 'ts' in (tf[:2], uf[:2]) or 'date' in (tf, uf):
+        flags.add('endpoint_as_timestamp_or_date')
+    if opts.get('same'):
+        flags.add('one_object_for_both_endpoints')
+        if nonb:
+            flags.add('one_object_for_both_endpoints_nonbday')
     if nonb:
         flags.add('endpoint_nonbday')
     if not ref.isb(t) and not ref.isb(u):
@@ -524,13 +834,14 @@ def _drange_law(cal, ref, cfg, t, u, flags):
 def run_drange(spec):
     cfg = spec['cfg']
     ref = _ref(cfg)
-    if len(ref.B) < 2 or not all(ref.B[0] <= t <= u <= ref.B[-1] for t, u in spec['pairs']):
+    pairs = [list(p) + [None] * (3 - len(p)) for p in spec['pairs']]        # [t, u, options]; older replay files have two entries
+    if len(ref.B) < 2 or not all(ref.B[0] <= t <= u <= ref.B[-1] for t, u, _ in pairs):
         raise HarnessError('drange_1b spec has an endpoint outside [first, last] business day or t > u')
     cal = _cal(cfg)
     flags = set()
     nt = 0
-    for t, u in spec['pairs']:
-        nt += bool(_drange_law(cal, ref, cfg, t, u, flags))
+    for t, u, opts in pairs:
+        nt += bool(_drange_law(cal, ref, cfg, t, u, flags, opts))
     return dict(nt=nt > 0, cls=_cfg_classes(cfg, ref) + sorted(flags))
 
 
@@ -825,6 +1136,201 @@ class RegistryModel(object):
         return dict(nt=self.rereg_then_seen, cls=cls)
 
 
+# ----------------------------------------------------------------------------- session: several calendars alive at once, calls interleaved
+
+S_OPS = ['is_bday', 'adjust', 'add', 'add', 'bdays', 'drange', 'adjust_list', 'bump']
+S_NMAX = 5          # |n| in a session
+S_MARGIN = 8        # the dates of a session keep this many business days of every calendar on either side
+
+
+def _session_simplify(c):
+    return dict(c, hols=[], runs=[[s_, min(l_, 5)] for s_, l_ in c['runs']])
+
+
+@st.composite
+def _session_case(draw, tier):
+    """2-3 calendars over ONE range and under ONE key that differ in the weekend, in a few holidays, in adj, or not at all (an equal calendar built from
+    the same argument objects, or a copy made by Calendar(cal)), built at different moments of one history of 4-12 questions about a pool of 2-5 dates
+    (the same date objects every time); half of the questions repeat the previous question on another calendar"""
+    base = draw(_cfg(150, 400, max_runs=3, min_runs=1))
+    base = dict(base, hform='list', wform='list', htype='dt', rform='dt')
+    base.pop('t0_tod', None)
+    key = draw(st.sampled_from([None, 'US', 'K']))
+    ncal = draw(st.integers(2, 3))
+    cals = [dict(cfg=base, how='base', src=None, share=False)]
+    for i in range(1, ncal):
+        how = draw(st.sampled_from(['holidays', 'holidays', 'holidays', 'holidays', 'weekend', 'weekend', 'weekend', 'same', 'copy', 'adj']))
+        src = draw(st.integers(0, i - 1))
+        c = dict(cals[src]['cfg'])
+        if how == 'weekend':
+            c['weekend'] = list(draw(st.sampled_from([w for w in WEEKENDS if w != c['weekend']])))
+        elif how == 'holidays':
+            runs = []
+            for s_, l_ in c['runs']:
+                m = draw(st.integers(-3, 4))
+                if m < 4:                                       # 4: the run is dropped
+                    runs.append([s_ + m, l_])
+            new = draw(st.lists(st.integers(c['t0'], c['t1']), max_size=4))
+            c['runs'] = runs
+            c['hols'] = c['hols'][draw(st.integers(0, 3)):] + new
+        elif how == 'adj':
+            c['adj'] = draw(st.sampled_from([a for a in 'fpm' if a != c['adj']]))
+            c['adj_spelling'] = c['adj']
+        # 'same' and 'copy': the configuration of src
+        cals.append(dict(cfg=c, how=how, src=src, share=draw(st.sampled_from([True, True, False]))))
+    refs = [_ref(c['cfg']) for c in cals]
+    if min(len(r.B) for r in refs) < 2 * S_MARGIN + 12 or max(r.B[S_MARGIN] for r in refs) + 10 > min(r.B[-S_MARGIN - 1] for r in refs):
+        for c in cals:                                          # rare (dense holidays): keep the runs, shortened, and no random holidays
+            c['cfg'] = _session_simplify(c['cfg'])
+        refs = [_ref(c['cfg']) for c in cals]
+    lo, hi = max(r.B[S_MARGIN] for r in refs), min(r.B[-S_MARGIN - 1] for r in refs)
+    # days on which two of the calendars disagree, and their neighbours: a question about them has different answers
+    diff = sorted(set(o + d for o in range(lo, hi + 1) if len(set(r.isb(o) for r in refs)) > 1 for d in (-1, 0, 1) if lo <= o + d <= hi))
+    special = sorted(set(o for c in cals for o in _expand(c['cfg']) if lo <= o <= hi))
+    t_s = [st.integers(lo, hi)]
+    if diff:
+        t_s += [st.sampled_from(diff)] * 3
+    if special:
+        t_s.append(st.sampled_from(special))
+    pool = draw(st.lists(st.one_of(*t_s), min_size=1, max_size=4))
+    pool.insert(0, draw(st.sampled_from(diff)) if diff else draw(st.integers(lo, hi)))
+    nsteps = draw(st.integers(4, 12))
+    new_at = sorted(draw(st.lists(st.integers(0, nsteps), min_size=ncal - 1, max_size=ncal - 1)))
+    q_s = st.fixed_dictionaries(dict(op=st.sampled_from(S_OPS), k=st.integers(0, len(pool) - 1), n=st.integers(-S_NMAX, S_NMAX),
+                                     a=st.sampled_from([None, None, None, 'f', 'p', 'm']), span=st.integers(0, 12)))
+    steps, built, prev = [], 1, None
+    for j in range(nsteps):
+        while built < ncal and new_at[built - 1] <= j:
+            steps.append(dict(op='new', c=built))
+            built += 1
+        if prev is not None and built > 1 and draw(st.integers(0, 9)) < 6:
+            q = dict(prev, c=draw(st.sampled_from([i for i in range(built) if i != prev['c']])))      # the same question, another calendar
+        else:
+            q = dict(draw(q_s), c=draw(st.integers(0, built - 1)))
+        steps.append(q)
+        prev = q
+    while built < ncal:                                         # calendars built at the very end still get the last question
+        steps.append(dict(op='new', c=built))
+        steps.append(dict(prev, c=built))
+        built += 1
+    return dict(key=key, cals=cals, pool=pool, steps=steps)
+
+
+def run_session(spec):
+    from pyg_base import Calendar
+    cals, pool, key = spec['cals'], spec['pool'], spec['key']
+    refs = [_ref(c['cfg']) for c in cals]
+    lo, hi = max(r.B[S_MARGIN] for r in refs), min(r.B[-S_MARGIN - 1] for r in refs)
+    if not pool or not all(lo <= o <= hi for o in pool) or any(c['cfg']['t0'] != cals[0]['cfg']['t0'] or c['cfg']['t1'] != cals[0]['cfg']['t1'] for c in cals):
+        raise HarnessError('session spec: pool outside the common interior or calendars over different ranges')
+    Ts = [_mk(o) for o in pool]            # the date objects of the session: built once, passed to every call
+    PL = list(Ts)                          # ... and the one list object handed to every adjust(list) call
+    objs, hlists, wlists, populated = {}, {}, {}, {}
+    hlists[0], wlists[0] = _hols_list(cals[0]['cfg']), list(cals[0]['cfg']['weekend'])
+    objs[0] = _cal(cals[0]['cfg'], key, hlists[0], wlists[0])
+    populated[0] = False
+    flags = set()
+    prev = None                            # (question, calendar, expected answer) of the previous step
+    nt = False
+    for st_ in spec['steps']:
+        ci = st_['c']
+        cfg, ref = cals[ci]['cfg'], refs[ci]
+        tag = '[session, calendar %i of %i (%s), key %r: %s] ' % (ci + 1, len(cals), cals[ci]['how'], key, _cfg_txt(cfg))
+        if st_['op'] == 'new':
+            how, src = cals[ci]['how'], cals[ci]['src']
+            if ci in objs or src not in objs:
+                raise HarnessError('session spec: calendar built twice or before its source')
+            if any(populated.values()):
+                flags.add('calendar_built_after_tables_of_another')
+            if how == 'copy':
+                objs[ci] = call('Calendar(<calendar %i>)' % (src + 1), Calendar, objs[src])
+                populated[ci] = populated[src]
+                hlists[ci], wlists[ci] = hlists[src], wlists[src]
+                flags.add('copy_of_populated_calendar' if populated[src] else 'copy_of_fresh_calendar')
+                continue
+            H = W = None
+            if cals[ci]['share']:
+                # the caller's own argument objects, used a second time: judged by what the caller put into them
+                if _expand(cfg) == _expand(cals[src]['cfg']):
+                    H = hlists[src]
+                    flags.add('holiday_list_object_used_for_two_calendars')
+                    if cfg['weekend'] != cals[src]['cfg']['weekend']:
+                        flags.add('holiday_list_object_reused_under_another_weekend')
+                if cfg['weekend'] == cals[src]['cfg']['weekend']:
+                    W = wlists[src]
+                    flags.add('weekend_list_object_used_for_two_calendars')
+            hlists[ci] = _hols_list(cfg) if H is None else H
+            wlists[ci] = list(cfg['weekend']) if W is None else W
+            objs[ci] = _cal(cfg, key, hlists[ci], wlists[ci])
+            populated[ci] = False
+            continue
+        if ci not in objs:
+            raise HarnessError('session spec: question to a calendar that is not built yet')
+        cal = objs[ci]
+        op, k, n, a = st_['op'], st_['k'], st_['n'], st_['a']
+        t, T = pool[k], Ts[k]
+        eff = _letter(a or cfg['adj'])
+        kw = {} if a is None else {'adj': a}
+        if op == 'is_bday':
+            exp = ref.isb(t)
+            got = call('is_bday(%s)' % _d(t), cal.is_bday, T)
+            check(bool(got) == exp, tag + 'is_bday(%s) = %s; day-by-day says %s', _d(t), got, exp)
+            got = call('is_holiday(%s)' % _d(t), cal.is_holiday, T)
+            check(bool(got) == (not exp), tag + 'is_holiday(%s) = %s; day-by-day says %s', _d(t), got, not exp)
+        elif op == 'adjust':
+            exp = ref.adj(t, eff)
+            got = call('adjust(%s, %r)' % (_d(t), a), cal.adjust, T, a)
+            check(_is_dt(got, exp), tag + 'adjust(%s, %s) = %s; nearest business day by day-by-day walk is %s', _d(t), a, _show(got), _d(exp))
+        elif op in ('add', 'bump'):
+            exp = ref.add(t, n, eff)
+            if op == 'add':
+                what = 'add(%s, %i%s)' % (_d(t), n, '' if a is None else ', adj=%r' % a)
+                got = call_fuel(what, FUEL, cal.add, T, n, **kw)
+            else:
+                what = 'dt_bump(%s, %r, %r)' % (_d(t), '%ib' % n, a)
+                got = call_fuel(what, FUEL, cal.dt_bump, T, '%ib' % n, a)
+            check(_is_dt(got, exp), tag + '%s = %s; walking %s business days from adjust = %s gives %s', what, _show(got), n, _d(ref.adj(t, eff)), _d(exp))
+            if abs(n) > 1:
+                populated[ci] = True
+        elif op == 'bdays':
+            u = ref.add(t, n, eff)               # the day add(t, n) has to be, from the model
+            exp = u                              # (the count is n on every calendar; what differs between calendars is the day it leads to)
+            if not populated[ci]:
+                flags.add('bdays_before_tables_are_built')
+            got = call('bdays(%s, %s%s)' % (_d(t), _d(u), '' if a is None else ', adj=%r' % a), cal.bdays, T, _mk(u), **kw)
+            check(got == n, tag + 'bdays(%s, %s) = %s where the second date is the %s-th business day from adjust(t, %s) = %s', _d(t), _d(u), got, n, eff, _d(ref.adj(t, eff)))
+            populated[ci] = True
+        elif op == 'drange':
+            u = min(hi, t + st_['span'])
+            a_, b_ = ref.adj(t, cfg['adj']), ref.adj(u, cfg['adj'])
+            exp = ref.between(a_, b_)
+            if not populated[ci]:
+                flags.add('drange_before_tables_are_built')
+            got = call("drange(%s, %s, '1b')" % (_d(t), _d(u)), cal.drange, T, _mk(u), '1b')
+            check(got == [_mk(o) for o in exp], tag + "drange(%s, %s, '1b') = %s; business days between %s and %s are %s",
+                  _d(t), _d(u), [_show(g) for g in got] if isinstance(got, list) else got, _d(a_), _d(b_), [_d(o) for o in exp])
+            populated[ci] = True
+        elif op == 'adjust_list':
+            exp = [ref.adj(o, eff) for o in pool]
+            got = call('adjust(<the list of the %i dates of the session>, %r)' % (len(pool), a), cal.adjust, PL, a)
+            check(isinstance(got, list) and len(got) == len(pool) and all(_is_dt(g, e) for g, e in zip(got, exp)),
+                  tag + 'adjust(%s, %s) = %s; date by date the answer is %s', [_d(o) for o in pool], a, [_show(g) for g in got] if isinstance(got, list) else got, [_d(e) for e in exp])
+        else:
+            raise HarnessError('session spec: unknown op %r' % (op,))
+        q = (op, k, n if op in ('add', 'bump', 'bdays') else 0, a if op != 'is_bday' else None, st_['span'] if op == 'drange' else 0)
+        if prev is not None and prev[0] == q and prev[1] != ci:
+            flags.add('same_question_to_another_calendar')
+            if prev[2] != exp:
+                flags.add('same_question_other_answer')
+                nt = True
+        prev = (q, ci, exp)
+    flags.add('key=None' if key is None else 'key=str')
+    flags.add('calendars=%i' % len(cals))
+    for c in cals[1:]:
+        flags.add('second_calendar_differs_in=' + c['how'])
+    return dict(nt=nt, cls=sorted(flags))
+
+
 # ----------------------------------------------------------------------------- registration
 
 KNOWN = {}
@@ -836,7 +1342,10 @@ SUBS = [
              '(t mostly in the interior so that 41 business days either side stay in range, biased to holidays, month ends, month-long closures and the first/last '
              'business days of the range with n clipped so that the walk just fits; n in [-40,40] biased to |n|<=3 and to 0, +-1, +-40; '
              'adj override None or any spelling of f/p/m; holidays as list/tuple/dict keys/bare datetime/None; weekend as list/tuple/int/reversed/duplicated/numpy/range; '
-             'runs also across 31 Dec-1 Jan, over 29 Feb and over one whole calendar month). Oracle = day-by-day walk on ordinals: is_bday, is_holiday, adjust f/p/m/default, add, bdays(t, add(t,n)) == n, '
+             'runs also across 31 Dec-1 Jan, over 29 Feb and over one whole calendar month; two in five ranges start and two in five end on 1 Jan / 31 Dec / 29 Feb / 28 Feb of a '
+             'non-leap year / a 30th / a 31st, and these days are start values t; holidays as datetime, pd.Timestamp or both in one list; t0, t1 as datetime / date / Timestamp; adj left out; '
+             't as datetime / Timestamp / date / with a time of day; n as int / numpy.int64; bumps "nb" / "+nb" / "nB"; adjust on a list / tuple / dict of 0, 1, .. 40 dates, the same container '
+             'object in two calls with different adj). Oracle = day-by-day walk on ordinals: is_bday, is_holiday, adjust f/p/m/default, add, bdays(t, add(t,n)) == n, '
              'add(add(t,n),-n) == t for business t, add(t,+-2) == add(add(t,+-1),+-1), dt_bump(t,"nb"[, adj]), adjust(list/dict of dates). '
              'non-trivial = some point has t non-business, or its walk crosses >= 2 consecutive holidays, or the modified-following month-end rule fires',
         floor=0.5, class_floors={'pt_month_end_rule': 0.1, 'pt_crosses_run>=2': 0.2, 'pt_holiday_weekday': 0.3, 'run_straddles_month_end': 0.1,
@@ -847,19 +1356,56 @@ SUBS = [
                                  'holiday_list>=100': 0.2, 'range>=2000_days': 0.03, 'holidays_duplicated': 0.3, 'holidays_unsorted': 0.5,
                                  'weekend_as=rev': 0.02, 'weekend_as=dup': 0.02, 'weekend_as=np': 0.02, 'weekend_as=range': 0.02, 'weekend_as=int': 0.01,
                                  'holidays_as=keys': 0.05, 'holidays_as=auto': 0.05, 'holidays_as=tuple': 0.05,
-                                 'adj_spelled_long_or_upper': 0.3, 'pt_adj_override_spelled_long_or_upper': 0.4}),
+                                 'adj_spelled_long_or_upper': 0.3, 'pt_adj_override_spelled_long_or_upper': 0.4,
+                                 # appendix classes 11-20. Raw types of one value (13): holidays / range / t / n
+                                 'holidays_raw=mixed': 0.06, 'holidays_raw=ts': 0.025, 'holidays_datetime_and_timestamp_in_one_list': 0.06,
+                                 'range_as=date': 0.035, 'range_as=ts': 0.035,
+                                 'pt_t_as=timestamp': 0.15, 'pt_t_as=date': 0.16, 'pt_t_as=datetime_with_time_of_day': 0.19, 'pt_t_as=timestamp_with_time_of_day': 0.17,
+                                 'pt_time_of_day_on_nonbday': 0.17, 'pt_n_as_numpy_int': 0.22, 'pt_n_as_numpy_int_table_path': 0.19,
+                                 # parameters left at their default / other spellings of the bump (17)
+                                 'adj_omitted': 0.02, 'pt_bump_spelled_with_plus': 0.15, 'pt_bump_spelled_upper': 0.22,
+                                 # calendar boundary days as first / last day of the range and as start value t (19)
+                                 'range_starts_on_1jan': 0.02, 'range_starts_on_31dec': 0.02, 'range_starts_on_29feb': 0.01, 'range_starts_on_28feb_nonleap': 0.015,
+                                 'range_starts_on_30th': 0.015, 'range_starts_on_31st': 0.04, 'range_ends_on_1jan': 0.02, 'range_ends_on_31dec': 0.015,
+                                 'range_ends_on_28feb_nonleap': 0.005, 'range_ends_on_30th': 0.015, 'range_ends_on_31st': 0.05,
+                                 'pt_t_on_1jan': 0.14, 'pt_t_on_31dec': 0.15, 'pt_t_on_29feb': 0.035, 'pt_t_on_28feb_nonleap': 0.12, 'pt_t_on_30th': 0.21, 'pt_t_on_31st': 0.21,
+                                 'pt_nonbday_t_on_1jan': 0.045, 'pt_nonbday_t_on_31dec': 0.05, 'pt_nonbday_t_on_29feb': 0.015, 'pt_nonbday_t_on_28feb_nonleap': 0.055,
+                                 # sequences where one date is meant (18) and the caller's container used twice (12)
+                                 'adjust_seq_len=0': 0.035, 'adjust_seq_len=1': 0.12, 'adjust_seq_len=>=10': 0.05, 'adjust_seq_tuple': 0.09,
+                                 'adjust_same_container_twice_other_answer': 0.08, 'adjust_seq_mixed_raw_types': 0.09}),
     Sub('drange_1b', _drange_case, run_drange, quick=1000, thorough=8000,
         rule='configuration as in day_laws (range 120-500 days) x 1-25 pairs t <= u between the first and last business day, spans 0-12 / 0-90 / anything, '
-             'endpoints biased to holidays and to the first / last business day of the range, t == u included. Oracle: the list of business days d with adjust(t) <= d <= adjust(u), found by visiting every day, compared as a list '
+             'endpoints biased to holidays and to the first / last business day of the range, t == u included (one object for both in a third of those); endpoints as datetime / Timestamp / date / '
+             'with a time of day (not a whole number of days apart, less than a day apart). Oracle: the list of business days d with adjust(t) <= d <= adjust(u), found by visiting every day, compared as a list '
              '(order, nothing missing, nothing extra). non-trivial = an endpoint is not a business day or a weekday holiday lies inside',
         floor=0.5, class_floors={'endpoint_nonbday': 0.3, 'holiday_inside': 0.3, 'single_day': 0.05, 'same_day_nonbday': 0.2, 'result>=100_days': 0.15,
                                  'starts_at_first_bday_of_range': 0.3, 'ends_at_last_bday_of_range': 0.3, 'span_inside_one_closure': 0.1,
-                                 'weekend_as=rev': 0.02, 'holidays_as=keys': 0.05}),
+                                 'weekend_as=rev': 0.02, 'holidays_as=keys': 0.05,
+                                 # appendix classes 13, 14, 17, 19
+                                 'adj_omitted': 0.02, 'holidays_raw=mixed': 0.055, 'holidays_raw=ts': 0.027, 'range_as=date': 0.025, 'range_as=ts': 0.035,
+                                 'range_starts_on_29feb': 0.012, 'range_starts_on_31st': 0.045, 'range_ends_on_31dec': 0.025,
+                                 'endpoint_with_time_of_day': 0.24, 'endpoints_not_whole_days_apart': 0.22, 'endpoints_not_whole_days_apart_nonbday': 0.18,
+                                 'endpoints_less_than_a_day_apart': 0.05, 'endpoint_as_timestamp_or_date': 0.24,
+                                 'one_object_for_both_endpoints': 0.18, 'one_object_for_both_endpoints_nonbday': 0.08}),
     Sub('all_days', _all_case, run_all_days, quick=12, thorough=100,
         rule='one configuration, completely enumerated: every day between the first and last business day of the range (quick: range 90-200 days; thorough: 365-800 days) '
              'for is_bday/is_holiday/adjust f,p,m/drange(t, t+9), and every n in [-40,40] whose walk stays in range for add, bdays, inverse; 2-step law. '
              'non-trivial = the configuration has holidays and non-business days',
         floor=0.25),
+    Sub('session', _session_case, run_session, quick=600, thorough=6000,
+        rule='2-3 calendars over ONE range (150-400 days) and under ONE key (None / a string) that differ in the weekend, in a few holidays (runs moved by up to 3 days or dropped, up to 4 new days), '
+             'in adj, or not at all (an equal calendar, or a copy made by Calendar(cal)); a calendar that repeats the holidays / the weekend of an earlier one is built, in two cases out of three, from the '
+             'SAME list objects the earlier one was built from. They are built at different moments of one history of 4-12 questions (is_bday+is_holiday / adjust / add / dt_bump / bdays / drange 1b / '
+             'adjust(list)) about a pool of 2-5 dates (the same datetime objects and one list object throughout, biased to days on which the calendars disagree), |n| <= 5; half of the questions repeat '
+             'the previous question on another calendar. Every answer is judged by the day-by-day model of the calendar that was asked, so no answer may depend on what was built or asked before. '
+             'non-trivial = a question was put to two calendars in a row and the model gives two different answers',
+        floor=0.09, class_floors={'same_question_to_another_calendar': 0.3, 'same_question_other_answer': 0.1, 'calendar_built_after_tables_of_another': 0.16,
+                                  'copy_of_populated_calendar': 0.025, 'copy_of_fresh_calendar': 0.02,
+                                  'holiday_list_object_used_for_two_calendars': 0.13, 'holiday_list_object_reused_under_another_weekend': 0.07,
+                                  'weekend_list_object_used_for_two_calendars': 0.17, 'bdays_before_tables_are_built': 0.06, 'drange_before_tables_are_built': 0.06,
+                                  'key=None': 0.14, 'key=str': 0.19, 'calendars=3': 0.12, 'second_calendar_differs_in=holidays': 0.19,
+                                  'second_calendar_differs_in=weekend': 0.1, 'second_calendar_differs_in=same': 0.03, 'second_calendar_differs_in=copy': 0.045,
+                                  'second_calendar_differs_in=adj': 0.034}),
     MachineSub('registry', RegistryModel, quick=(600, 12), thorough=(1500, 20),
                rule='histories of register(key, holidays, weekend, t0, t1) / re-register with holidays + range / re-register with ONLY holidays=h (often []) / re-register with holidays=h, weekend=w and no range (h and w often []) / register a Calendar object / re-register through the object / '
                     'fetch(key) / populate tables / register two keys with related names / re-register with the same number of holidays and the same first and last one; '
